@@ -1443,6 +1443,16 @@ func (x *Exec) specCall(env *SpecEnv, n *ECall) TV {
 		na, nb := x.unifyNum(a, b, "ite")
 		na.t = Ite(c, na.t, nb.t)
 		return numTV(na)
+	case "fnapp": // fnapp(f, i, args...): result i of calling the deterministic function value f (zz_detfunc.go)
+		c, ok := isConstTV(arg(1))
+		if !ok {
+			specFail("fnapp(f, i, args...): i must be a constant")
+		}
+		var as []TV
+		for j := 2; j < len(n.Args); j++ {
+			as = append(as, arg(j))
+		}
+		return x.specFnApp(env, arg(0), int(c.Int64()), as)
 	case "called": // callback target was invoked on this path
 		s := nameArg(n.Args[0])
 		for k := range st.ghost {
